@@ -344,6 +344,17 @@ mx(x, o) <-- e(x,y), mx(y,o);
 big(x) <-- mx(x,o), if optge(o,2);
 """, "lat par", bound=4)
 
+# breadth-first distances: the frontier (delta) can have more index keys than everything before it (total); the lattice is
+# read through a NON-KEY index (column 1 of the key (source, node)) both inside the recursion, in a three-clause rule, and
+# by a later stratum
+prog("lat_tree", """
+rel e(int,int) input; rel src(int) input; rel q(int) input; lat dist(int,int,dual_i32); rel out(int,int,int); rel okn(int);
+okn(x) <-- for x in 0..3;
+dist(s,s,dual(0)) <-- src(s);
+dist(s,z,dual(undual(d) + 1)) <-- e(y,z), dist(s,y,d), okn(z), if undual(d) < 4;
+out(s,n,k) <-- q(n), dist(s,n,d), let k = undual(d);
+""", "lat par life", bound=4, dom=3)
+
 # cheapest cost plus a witness: a tuple lattice with a Dual component (join goes through Ord of the components)
 prog("lex_dual_lat", """
 rel w(int,int,int) input; lat best(int,lex_dual_pair); rel via(int,int);
